@@ -34,7 +34,7 @@ pub enum Entry {
     Forged2 { #[serde(with = "crate::exact")] value: Value },
     /// disclosure #i of a second credential issued over the same claims
     Foreign(u16),
-    /// garbage: 0 "!!!", 1 b64("not json"), 2 "", 3 b64("{}"), 4 b64("\"str\""), 5 b64("[]"), 6 b64("[1]"), 7 b64("[\"s\"]"), 8 "WyJ", 9 b64(genuine JSON + trailing garbage)
+    /// garbage: 0 "!!!", 1 b64("not json"), 2 "", 3 b64("{}"), 4 b64("\"str\""), 5 b64("[]"), 6 b64("[1]"), 7 b64("[\"s\"]"), 8 "WyJ", 9 b64(genuine JSON + trailing garbage), 10 "g~g'", 11 "g~", 12 "~g" (JSON form only)
     Garbage(u8),
 }
 
@@ -135,7 +135,12 @@ fn concretise(e: &Entry, genuine: &[String], foreign: &[String], claims: &Value,
         Entry::Forged2 { value } => Some((b64e(format!("[\"2GLC42sKQveCfGfryNRN9w\", {}]", value).as_bytes()), "forged element disclosure")),
         Entry::Foreign(i) => idx(*i, foreign.len()).map(|k| (foreign[k].clone(), "foreign credential")),
         Entry::Garbage(k) => {
-            let s = match k % 10 {
+            let s = match k % 13 {
+                // strings that contain the separator of the OTHER format (only expressible in
+                // JSON): two genuine disclosures glued with '~', one followed by '~', one preceded
+                10 => format!("{}~{}", genuine.first()?, genuine.last()?),
+                11 => format!("{}~", genuine.first()?),
+                12 => format!("~{}", genuine.last()?),
                 0 => "!!!".to_string(),
                 1 => b64e(b"not json"),
                 2 => String::new(),
